@@ -156,7 +156,7 @@ End Prov.
 
 (* C01 down to the IDAT content: the emitted, compressed data is the compressor's answer for a stream that the specification's
    decoder (reconstruction of the filtered rows, then the meaning of the image data) maps to the input's picture *)
-Theorem emitted_stream_lossless_partial (L : leaves) e o img max_size c pic :
+Theorem emitted_stream_lossless_partial e o img max_size c pic :
   optimize_alpha o = false -> scale_16 o = false -> means pic img ->
   optimize_raw e o img max_size = Ok (Some c) ->
   exists d stream, c_cdata c = z_deflate e d stream /\
@@ -164,14 +164,14 @@ Theorem emitted_stream_lossless_partial (L : leaves) e o img max_size c pic :
                        (depth (hdr (c_image c))) (interlaced (hdr (c_image c))) stream = Some pic.
 Proof.
   intros Ha Hs Hm H.
-  destruct (optimize_raw_lossless_partial L e o img max_size c pic Ha Hs Hm H) as [Hwf Hsem].
+  destruct (optimize_raw_lossless_partial e o img max_size c pic Ha Hs Hm H) as [Hwf Hsem].
   destruct (optimize_raw_provenance e o img max_size c Ha H) as [Hc (filtered & Hf & Hd)]. rewrite Hc in Hd. destruct Hd as [d Hd].
   exists d, filtered. split; [exact Hd|]. eapply filter_image_decodes; eauto.
 Qed.
 
 (* C02, IDAT content: the emitted data is the compression of a stream that the specification cuts into exactly the rows the header
    implies (so its size is the size the header implies), every row starts with a filter type 0..4, and un-filtering gives the image data *)
-Theorem emitted_idat_valid_partial (L : leaves) e o img max_size c pic :
+Theorem emitted_idat_valid_partial e o img max_size c pic :
   optimize_alpha o = false -> scale_16 o = false -> means pic img ->
   optimize_raw e o img max_size = Ok (Some c) ->
   exists d stream, c_cdata c = z_deflate e d stream /\
@@ -179,7 +179,7 @@ Theorem emitted_idat_valid_partial (L : leaves) e o img max_size c pic :
     = Some (data (c_image c)).
 Proof.
   intros Ha Hs Hm H.
-  destruct (optimize_raw_lossless_partial L e o img max_size c pic Ha Hs Hm H) as [Hwf Hsem].
+  destruct (optimize_raw_lossless_partial e o img max_size c pic Ha Hs Hm H) as [Hwf Hsem].
   destruct (optimize_raw_provenance e o img max_size c Ha H) as [Hc (filtered & Hf & Hd)]. rewrite Hc in Hd. destruct Hd as [d Hd].
   exists d, filtered. split; [exact Hd|]. eapply filter_image_stream; eauto.
 Qed.
@@ -190,7 +190,7 @@ Lemma filter_image_alpha_noalpha brute img f : has_alpha (ctype (hdr img)) = fal
   filter_image brute img f true = filter_image brute img f false.
 Proof. intros H. unfold filter_image, filter_image_rows. rewrite H. reflexivity. Qed.
 
-Theorem emitted_stream_alpha_partial (L : leaves) e o img max_size c pic :
+Theorem emitted_stream_alpha_partial e o img max_size c pic :
   scale_16 o = false -> ameans pic img ->
   optimize_raw e o img max_size = Ok (Some c) ->
   exists d stream pic', c_cdata c = z_deflate e d stream /\
@@ -199,7 +199,7 @@ Theorem emitted_stream_alpha_partial (L : leaves) e o img max_size c pic :
     pic_aequiv pic pic'.
 Proof.
   intros Hs Hm H.
-  destruct (optimize_raw_alpha_partial L e o img max_size c pic Hs Hm H) as (pic1 & [Hwf Hsem] & A1).
+  destruct (optimize_raw_alpha_partial e o img max_size c pic Hs Hm H) as (pic1 & [Hwf Hsem] & A1).
   destruct (optimize_raw_provenance_gen e o img max_size c H) as [Hc (al & filtered & _ & Hf & Hd)]. rewrite Hc in Hd. destruct Hd as [d Hd].
   exists d, filtered.
   destruct al.
